@@ -252,7 +252,10 @@ public:
 			if (jsonValue.IsObject()) {
 				return std::make_optional<RapidJsonObjectScope<TMode, TEncoding, TAllocator>>(&jsonValue, mAllocator, this->GetContext(), this);
 			}
-			RapidJsonScopeBase<TEncoding>::HandleMismatchedTypesPolicy(this->GetContext().GetOptions().mismatchedTypesPolicy);
+			// Null value from JSON is excluded from MismatchedTypesPolicy processing
+			if (!jsonValue.IsNull()) {
+				RapidJsonScopeBase<TEncoding>::HandleMismatchedTypesPolicy(this->GetContext().GetOptions().mismatchedTypesPolicy);
+			}
 			return std::nullopt;
 		}
 		else
@@ -271,7 +274,10 @@ public:
 			if (jsonValue.IsArray()) {
 				return std::make_optional<RapidJsonArrayScope<TMode, TEncoding, TAllocator>>(&jsonValue, mAllocator, this->GetContext(), this);
 			}
-			RapidJsonScopeBase<TEncoding>::HandleMismatchedTypesPolicy(this->GetContext().GetOptions().mismatchedTypesPolicy);
+			// Null value from JSON is excluded from MismatchedTypesPolicy processing
+			if (!jsonValue.IsNull()) {
+				RapidJsonScopeBase<TEncoding>::HandleMismatchedTypesPolicy(this->GetContext().GetOptions().mismatchedTypesPolicy);
+			}
 			return std::nullopt;
 		}
 		else
@@ -396,7 +402,10 @@ public:
 				{
 					return std::make_optional<RapidJsonObjectScope<TMode, TEncoding, TAllocator>>(jsonValue, mAllocator, this->GetContext(), this, key);
 				}
-				RapidJsonScopeBase<TEncoding>::HandleMismatchedTypesPolicy(this->GetContext().GetOptions().mismatchedTypesPolicy);
+				// Null value from JSON is excluded from MismatchedTypesPolicy processing
+				if (!jsonValue->IsNull()) {
+					RapidJsonScopeBase<TEncoding>::HandleMismatchedTypesPolicy(this->GetContext().GetOptions().mismatchedTypesPolicy);
+				}
 			}
 			return std::nullopt;
 		}
@@ -419,7 +428,10 @@ public:
 				{
 					return std::make_optional<RapidJsonArrayScope<TMode, TEncoding, TAllocator>>(jsonValue, mAllocator, this->GetContext(), this, key);
 				}
-				RapidJsonScopeBase<TEncoding>::HandleMismatchedTypesPolicy(this->GetContext().GetOptions().mismatchedTypesPolicy);
+				// Null value from JSON is excluded from MismatchedTypesPolicy processing
+				if (!jsonValue->IsNull()) {
+					RapidJsonScopeBase<TEncoding>::HandleMismatchedTypesPolicy(this->GetContext().GetOptions().mismatchedTypesPolicy);
+				}
 			}
 			return std::nullopt;
 		}
@@ -599,7 +611,10 @@ public:
 			{
 				return std::make_optional<RapidJsonArrayScope<TMode, TEncoding, allocator_type>>(&mRootJson, mRootJson.GetAllocator(), this->GetContext());
 			}
-			RapidJsonScopeBase<TEncoding>::HandleMismatchedTypesPolicy(this->GetContext().GetOptions().mismatchedTypesPolicy);
+			// Null value from JSON is excluded from MismatchedTypesPolicy processing
+			if (!mRootJson.IsNull()) {
+				RapidJsonScopeBase<TEncoding>::HandleMismatchedTypesPolicy(this->GetContext().GetOptions().mismatchedTypesPolicy);
+			}
 			return std::nullopt;
 		}
 		else
@@ -620,7 +635,10 @@ public:
 			{
 				return std::make_optional<RapidJsonObjectScope<TMode, TEncoding, allocator_type>>(&mRootJson, mRootJson.GetAllocator(), this->GetContext());
 			}
-			RapidJsonScopeBase<TEncoding>::HandleMismatchedTypesPolicy(this->GetContext().GetOptions().mismatchedTypesPolicy);
+			// Null value from JSON is excluded from MismatchedTypesPolicy processing
+			if (!mRootJson.IsNull()) {
+				RapidJsonScopeBase<TEncoding>::HandleMismatchedTypesPolicy(this->GetContext().GetOptions().mismatchedTypesPolicy);
+			}
 			return std::nullopt;
 		}
 		else
